@@ -795,7 +795,7 @@ def strip(o):
 def check_apply(R):
     rng = R.rng
     ncases = int(os.environ.get("C12_NAPPLY", 800 if R.quick else 12000))
-    mlines, mobs, mcap = [], [], (6000 if R.quick else 120000)
+    mlines, mobs, mcap = [], [], (30000 if R.quick else 400000)
     for ci in range(ncases):
         nleaves = rng.choice([1, 2, 2, 3, 3, 4, 4, 5, 5, 6, 7, 8]) if ci % 4 else rng.choice([3, 4, 5])
         case = gen_apply_case(rng, nleaves)
